@@ -12,6 +12,7 @@ import (
 	"path/filepath"
 	"sort"
 	"strings"
+	"sync"
 	"syscall"
 	"testing"
 	"time"
@@ -90,9 +91,22 @@ type fault struct {
 	// rt_sigaction and the process dies inside write(2) after a partial write);
 	// "createtemp-emfile" (real fault: descriptor table exhausted); "createtemp-nodir"
 	// (real fault: parent directory missing).
+	// "error-persistent": every rename attempt on the target (hook ops renameat AND renameat2,
+	// every time they are reached) fails with Errno.
 	Kind  string
 	Point string `json:",omitempty"`
 	Errno int    `json:",omitempty"`
+	// Then (only with Kind "error"): a SECOND fault inside the same write, at the Ordinal-th
+	// hook point reached after the first fault was injected (whatever operation that is: the
+	// list of later points is discovered by the single-fault run). Op is informational.
+	Then *secondFault `json:",omitempty"`
+}
+
+type secondFault struct {
+	Ordinal int
+	Op      string
+	Action  string // "crash" (SIGKILL self before the operation) or "error" (the operation fails with Errno)
+	Errno   int    `json:",omitempty"`
 }
 
 func (f fault) String() string {
@@ -100,7 +114,16 @@ func (f fault) String() string {
 	case "crash":
 		return "crash@" + f.Point
 	case "error":
-		return fmt.Sprintf("error@%s=%s", f.Point, errnoName(f.Errno))
+		s := fmt.Sprintf("error@%s=%s", f.Point, errnoName(f.Errno))
+		if f.Then != nil {
+			s += fmt.Sprintf(" then %s@later[%d]:%s", f.Then.Action, f.Then.Ordinal, f.Then.Op)
+			if f.Then.Action == "error" {
+				s += "=" + errnoName(f.Then.Errno)
+			}
+		}
+		return s
+	case "error-persistent":
+		return "error@every-rename=" + errnoName(f.Errno)
 	}
 	return f.Kind
 }
@@ -130,6 +153,7 @@ func allFaults() []fault {
 		fault{Kind: "write-sigxfsz"},
 		fault{Kind: "error", Point: "renameat", Errno: int(syscall.EIO)},
 		fault{Kind: "error", Point: "renameat", Errno: int(syscall.EXDEV)},
+		fault{Kind: "error-persistent", Errno: int(syscall.EIO)},
 		fault{Kind: "write-efbig"},
 		fault{Kind: "createtemp-emfile"},
 		fault{Kind: "createtemp-nodir"},
@@ -171,7 +195,18 @@ type writerResult struct {
 	Returned bool   `json:"returned"`
 	Err      string `json:"err,omitempty"`
 	Setup    string `json:"setup,omitempty"` // harness-side setup problem (infrastructure)
+	// Later lists the hook operations reached after the first injected error (in order).
+	Later []string `json:"later,omitempty"`
+	// SecondFired: the second fault (Then, action "error") was injected.
+	SecondFired bool `json:"second_fired,omitempty"`
 }
+
+// State of the child's hook handler.
+var (
+	hookMu      sync.Mutex
+	laterPoints []string
+	secondFired bool
+)
 
 func writerChild() {
 	var spec writerSpec
@@ -194,8 +229,33 @@ func writerChild() {
 			return nil
 		})
 	case "error":
+		firstFired := false
 		verifhook.Set(func(op string, _ int, name string) error {
-			if op == f.Point && name == spec.Path {
+			hookMu.Lock()
+			defer hookMu.Unlock()
+			if !firstFired {
+				if op == f.Point && name == spec.Path {
+					firstFired = true
+					return syscall.Errno(f.Errno)
+				}
+				return nil
+			}
+			// Every hook point the same write reaches after the injected error.
+			ordinal := len(laterPoints)
+			laterPoints = append(laterPoints, op)
+			if f.Then != nil && ordinal == f.Then.Ordinal {
+				if f.Then.Action == "crash" {
+					syscall.Kill(os.Getpid(), syscall.SIGKILL)
+					select {}
+				}
+				secondFired = true
+				return syscall.Errno(f.Then.Errno)
+			}
+			return nil
+		})
+	case "error-persistent":
+		verifhook.Set(func(op string, _ int, name string) error {
+			if (op == "renameat" || op == "renameat2") && name == spec.Path {
 				return syscall.Errno(f.Errno)
 			}
 			return nil
@@ -253,7 +313,9 @@ func writerChild() {
 	default:
 		fail("api", fmt.Errorf("unknown %q", spec.Step.API))
 	}
-	res := writerResult{Returned: true}
+	hookMu.Lock()
+	res := writerResult{Returned: true, Later: laterPoints, SecondFired: secondFired}
+	hookMu.Unlock()
 	if err != nil {
 		res.Err = err.Error()
 	}
@@ -283,9 +345,10 @@ type stepObservation struct {
 	Step     string   `json:"step"`
 	Ending   string   `json:"ending"` // "returned-nil", "returned-error", "killed:<signal>"
 	Err      string   `json:"err,omitempty"`
-	Target   string   `json:"target"`   // "old", "new", "old=new", "absent(old)", or a description of anything else
-	Leftover []string `json:"leftover"` // other names in the directory
-	Fired    bool     `json:"fired"`    // the injected fault actually happened
+	Target   string   `json:"target"`          // "old", "new", "old=new", "absent(old)", or a description of anything else
+	Leftover []string `json:"leftover"`        // other names in the directory
+	Fired    bool     `json:"fired"`           // the injected fault(s) actually happened
+	Later    []string `json:"later,omitempty"` // hook operations reached after the first injected error
 }
 
 type c27run struct {
@@ -410,6 +473,15 @@ func runC27(c c27case) (run c27run, err error) {
 			obs.Fired = strings.HasPrefix(obs.Ending, "killed:")
 		default:
 			obs.Fired = obs.Ending == "returned-error"
+		}
+		obs.Later = res.Later
+		if then := s.Fault.Then; then != nil {
+			// Two faults in one write: non-trivial when the second one happened too.
+			if then.Action == "crash" {
+				obs.Fired = strings.HasPrefix(obs.Ending, "killed:")
+			} else {
+				obs.Fired = res.SecondFired
+			}
 		}
 
 		// ---- Oracle -------------------------------------------------------
@@ -584,9 +656,9 @@ func TestC27(t *testing.T) {
 		}
 	}
 	r.Rule(fmt.Sprintf("every API in %v x old content in %v x new content in %v x fault in {none, SIGKILL of the writing process at each of %v, SIGXFSZ kill in the middle of write(2), "+
-		"renameat failing with EIO/EXDEV, write(2) failing with EFBIG after a partial write, CreateTemp failing with EMFILE / ENOENT} (marshal API on a reduced grid in quick); plus the crash-then-rewrite slice: "+
+		"renameat failing with EIO/EXDEV, every rename attempt (renameat and renameat2) failing persistently, write(2) failing with EFBIG after a partial write, CreateTemp failing with EMFILE / ENOENT} (marshal API on a reduced grid in quick); plus the crash-then-rewrite slice: "+
 		"a 100 KiB write killed at written/closed/chmodded/before-rename/inside write(2), then a fault-free write of a shorter / equal / longer / empty content by a fresh process; thorough adds larger contents and every ordered pair "+
-		"(faulty write, then second write with every fault, fresh process, same directory). One child process per write. Non-trivial = the injected crash/failure actually happened "+
+		"(faulty write, then second write with every fault, fresh process, same directory). Single-write two-fault closure: whenever a write that received an injected error goes on to reach further hook points, each of them gets a second fault (crash before it / failure of it) in a fresh execution. One child process per write. Non-trivial = the injected crash/failure actually happened "+
 		"(child died by the signal / call returned an error); distinct by (api, old, new, fault[, second write])", apis, olds, news, crashPoints))
 	r.Assume("process crash only: the page cache survives, power-loss torn writes are outside the property",
 		"crash points are the verifhook points between the steps of WriteFileAtomic plus the renameat wrapper; a crash inside a single system call is represented only by the SIGXFSZ kill inside write(2)",
@@ -605,14 +677,9 @@ func TestC27(t *testing.T) {
 			r.Sample(cases[i+1])
 		}
 	}
-	vr.Parallel(len(cases), func(i int) {
-		if time.Now().After(deadline) {
-			<-mu
-			skipped++
-			mu <- struct{}{}
-			return
-		}
-		c := cases[i]
+	var followUps int64
+	var process func(c c27case, level int)
+	process = func(c c27case, level int) {
 		run, err := runC27(c)
 		if err != nil {
 			<-mu
@@ -632,6 +699,9 @@ func TestC27(t *testing.T) {
 				leftover = "temp-left"
 			}
 			ending := o.Ending
+			if c.Steps[j].Fault.Then != nil {
+				ending = "two-faults " + ending
+			}
 			r.Outcome(fmt.Sprintf("%s target=%s %s", ending, o.Target, leftover))
 		}
 		allNone := true
@@ -652,7 +722,35 @@ func TestC27(t *testing.T) {
 				return err == nil && again.Violation != ""
 			})
 		}
+		// Single-write two-fault closure: the write survived an injected error and went on to
+		// reach further hook points (a retry, a fallback, a cleanup through a hooked wrapper).
+		// Every one of them gets a second fault - a crash before it and a failure of it - in a
+		// fresh execution of the same case. (On an implementation that gives up after the first
+		// error the list is empty and nothing is added.)
+		if level == 0 && len(c.Steps) == 1 && c.Steps[0].Fault.Kind == "error" && c.Steps[0].Fault.Then == nil && len(run.Obs) == 1 {
+			for q, op := range run.Obs[0].Later {
+				for _, second := range []secondFault{{q, op, "crash", 0}, {q, op, "error", int(syscall.EIO)}} {
+					second := second
+					f := c.Steps[0].Fault
+					f.Then = &second
+					<-mu
+					followUps++
+					mu <- struct{}{}
+					process(c27case{Old: c.Old, Steps: []writeStep{{c.Steps[0].API, c.Steps[0].New, f}}}, 1)
+				}
+			}
+		}
+	}
+	vr.Parallel(len(cases), func(i int) {
+		if time.Now().After(deadline) {
+			<-mu
+			skipped++
+			mu <- struct{}{}
+			return
+		}
+		process(cases[i], 0)
 	})
+	r.Set("two_fault_followup_cases", followUps)
 	if infraMsg != "" {
 		t.Fatalf("%s", infraMsg)
 	}
